@@ -475,6 +475,18 @@ func (s *Sim) obsVerify(hashes []u.Hash, targets []uint64, proofHashes []u.Hash)
 			res = "err"
 		}
 		emit("obs %s verify %s %s %s %s", in.label, hxs(hashes), us(targets), hxs(proofHashes), res)
+		if in.mp != nil {
+			// partial-proof verification with the same untrusted input (C03/C04)
+			var perr error
+			r := guard(watchdog, func() {
+				perr = in.mp.VerifyPartialProof(copyU64(targets), copyHashes(hashes), copyHashes(proofHashes), false)
+			})
+			res := r
+			if r == "ok" && perr != nil {
+				res = "err"
+			}
+			emit("obs %s pverify %s %s %s %s", in.label, hxs(hashes), us(targets), hxs(proofHashes), res)
+		}
 	}
 }
 
